@@ -230,6 +230,27 @@ fn block_family() -> Family {
     }
 }
 
+/// received-map positions by the documented layout: member 0 (many originals, few recovery shards) has at least
+/// as many work positions as every other member in both rates, although the others have more recovery shards
+/// or both counts in one power-of-two class; after a warm-up with member 0 alone a reset to any of them must
+/// not allocate - an implementation that sizes the map by an over-estimate (largest base + largest count)
+/// would otherwise hide behind its own warm-up
+fn bitmap_family() -> Family {
+    Family {
+        name: "bitmap-layout",
+        members: vec![
+            Member { k: 1568, r: 24, small: false },
+            Member { k: 513, r: 1000, small: false },
+            Member { k: 1000, r: 500, small: false },
+            Member { k: 570, r: 1000, small: false },
+            Member { k: 33, r: 31, small: false },
+        ],
+        cfg: |m, s| (m.k * s, m.r * s, 2),
+        slack: |_| 64,
+        dominant_first: true,
+    }
+}
+
 fn need(kind: Kind, decoder: bool, k: usize, r: usize, b: usize) -> (usize, usize) {
     let blocks = spec_work_blocks(kind, decoder, k, r, b);
     let hi = spec_is_high(kind, k, r);
@@ -420,6 +441,8 @@ fn family_by_name(n: &str) -> Family {
         big_family()
     } else if n == "block-count" {
         block_family()
+    } else if n == "bitmap-layout" {
+        bitmap_family()
     } else {
         count_family()
     }
@@ -479,13 +502,13 @@ pub fn run(ctx: &Ctx, rep: &mut Report) {
     let seed = ctx.seed;
     // tables are process-wide one-time allocations: touch them before anything is measured
     let _ = (&*reed_solomon_simd::engine::tables::LOG_WALSH, &*reed_solomon_simd::engine::tables::MUL16, &*reed_solomon_simd::engine::tables::MUL128, &*reed_solomon_simd::engine::tables::SKEW);
-    rep.rule = "case = (family, direction, start kind, engine, history of <= d steps over {round, abandoned round, reset to any member, recycle into {high,low,default} at any member}, closed by a completed round); the object first visits every member in every rate (not measured) so it holds the maximum (family block-count: only the member that dominates by the documented layout, positions x ceil(bytes/64)); measured region = the history, executed at scale 1 and scale 2 (shard sizes doubled / counts doubled); bytes allocated there must not grow with the scale; non-trivial = histories containing a reset or recycle; distinct by (family,direction,kind,engine,history)".into();
+    rep.rule = "case = (family, direction, start kind, engine, history of <= d steps over {round, abandoned round, reset to any member, recycle into {high,low,default} at any member}, closed by a completed round); the object first visits every member in every rate (not measured) so it holds the maximum (families block-count and bitmap-layout: only the member that dominates by the documented layout, positions x ceil(bytes/64)); measured region = the history, executed at scale 1 and scale 2 (shard sizes doubled / counts doubled); bytes allocated there must not grow with the scale; non-trivial = histories containing a reset or recycle; distinct by (family,direction,kind,engine,history)".into();
     rep.assume("allocation = calls of the global allocator on the measuring thread (alloc, alloc_zeroed, growing realloc); shard data and result reading use borrowed slices only");
     rep.assume("criterion is growth with scale, so constant-size allocations of any size are never reported");
     let d = if ctx.thorough() { 3 } else { 2 };
     rep.bound("depth", J::i(d));
     let mut jobs: Vec<(&'static str, bool, Kind, &'static str, Vec<Step>)> = Vec::new();
-    for famname in ["shard-size", "shard-count", "big-shard-size", "block-count"] {
+    for famname in ["shard-size", "shard-count", "big-shard-size", "block-count", "bitmap-layout"] {
         let fam = family_by_name(famname);
         for decoder in [false, true] {
             for kind0 in [Kind::Rs, Kind::Def, Kind::High, Kind::Low] {
